@@ -425,6 +425,36 @@ func (s *SimAPI) gcOwned(pod *corev1.Pod) {
 	}
 }
 
+// GCOrphans is one pass of the owner-reference garbage collector over ConfigMaps and BindRequests: an object all of whose
+// owners are pods that no longer exist (by UID) is deleted.
+func (s *SimAPI) GCOrphans() {
+	live := map[string]bool{}
+	for _, p := range s.Pods() {
+		live[string(p.UID)] = true
+	}
+	orphan := func(refs []metav1.OwnerReference) bool {
+		if len(refs) == 0 {
+			return false
+		}
+		for _, or := range refs {
+			if or.Kind != "Pod" || live[string(or.UID)] {
+				return false
+			}
+		}
+		return true
+	}
+	for _, cm := range s.ConfigMaps() {
+		if orphan(cm.OwnerReferences) {
+			_ = s.Tracker.Delete(CMGVR, cm.Namespace, cm.Name)
+		}
+	}
+	for _, br := range s.BindRequests() {
+		if orphan(br.OwnerReferences) {
+			_ = s.Tracker.Delete(BRGVR, br.Namespace, br.Name)
+		}
+	}
+}
+
 // RemovePod removes a pod object for good (kubelet finished / completed / force delete).
 func (s *SimAPI) RemovePod(ns, name string) {
 	obj, err := s.Tracker.Get(PodGVR, ns, name)
